@@ -134,6 +134,11 @@ def gen_case(rng, kind, subtype):
     room_lo = lim + (min(finite) if finite else 0)
     cand = [d for d in (1, -1, 2 ** 4, -2 ** 7, 2 ** 12, -2 ** 20, 2 ** 24)
             if (d > 0 and d <= room_hi) or (d < 0 and -d <= room_lo)]
+    nverts = sum(len(gg.coords_of(kind, e)) // 2 for e in els)
+    if subtype in ("float64", "int64") and finite and max(finite) - min(finite) <= 256 and nverts <= 60 \
+            and max(abs(v) for v in finite) <= 2 ** 20:
+        # every shoelace term x * dy stays an exact integer below 2**53: the measures must not move
+        cand += [2 ** 30, -2 ** 34, 2 ** 38]
     dx = int(cand[int(rng.integers(len(cand)))]) if cand else 0
     dy = int(cand[int(rng.integers(len(cand)))]) if cand else 0
     return {"kind": kind, "subtype": subtype, "elements": els, "shift": [dx, dy],
